@@ -327,7 +327,7 @@ def _small_exhaustive(chk) -> list[dict]:
 
 def run(chk) -> None:
     rnd = random.Random(chk.seed)
-    n = 800 if chk.tier == "quick" else 30000
+    n = 800 if chk.tier == "quick" else 12000
     cases = [_gen_case(rnd, i) for i in range(n)]
     if chk.tier != "quick":
         cases += _small_exhaustive(chk)
